@@ -1,0 +1,448 @@
+//go:build verif
+
+package router
+
+import (
+	"fmt"
+	"net"
+	"net/netip"
+	"unsafe"
+
+	"github.com/scionproto/scion/pkg/addr"
+	"github.com/scionproto/scion/private/topology"
+	"github.com/scionproto/scion/router/bfd"
+	"github.com/scionproto/scion/router/control"
+)
+
+// Verification hooks (build tag verif). They build a dataPlane without sockets
+// (fake Link implementations that record what is sent over them) and expose
+// the fast-path and slow-path packet processors on single raw packets.
+// Add-only; no behaviour change.
+
+// Link ids used by the hooks: 0 = internal link, 1..65535 = external link of
+// that interface id, VerifSiblingBase+k = link to sibling router k (k >= 1).
+const VerifSiblingBase = 0x10000
+
+// Dispositions as reported by VerifProcess.
+const (
+	VerifDiscard  = int(pDiscard)
+	VerifForward  = int(pForward)
+	VerifSlowPath = int(pSlowPath)
+	VerifDone     = int(pDone)
+	VerifPanic    = 255
+)
+
+// Slow-path request kinds (slowPathType values below zero).
+const (
+	VerifSPRouterAlertIngress = int(slowPathRouterAlertIngress)
+	VerifSPRouterAlertEgress  = int(slowPathRouterAlertEgress)
+)
+
+// Constants of the packet buffer layout.
+const (
+	VerifBufSize     = bufSize
+	VerifMinHeadroom = minHeadroom
+)
+
+// VerifIface describes one interface id of the AS as seen by this router.
+type VerifIface struct {
+	IfID     uint16
+	LinkTo   topology.LinkType
+	Neighbor addr.IA
+	// Sibling = 0: external interface owned by this router (own external link).
+	// Sibling = k > 0: interface owned by sibling router k; all interfaces of the
+	// same sibling share one sibling link (as udpip.NewSiblingLink does).
+	Sibling int
+	// Up is the BFD state reported by the external link (ignored for sibling
+	// interfaces: see VerifConfig.SiblingDown).
+	Up bool
+}
+
+// VerifSvc is one service backend.
+type VerifSvc struct {
+	SVC  addr.SVC
+	Addr netip.AddrPort
+}
+
+// VerifConfig is the router configuration.
+type VerifConfig struct {
+	LocalIA     addr.IA
+	Key         []byte
+	LocalHost   netip.Addr
+	Ifaces      []VerifIface
+	SiblingDown map[int]bool // sibling links whose BFD session is down
+	Svcs        []VerifSvc
+	PortStart   uint16
+	PortEnd     uint16
+	SCMPAuth    bool
+
+	// Optional: a real underlay provider (e.g. udpip with a fake ConnOpener,
+	// obtained with VerifNewUnderlay) to be installed as "udpip", and a link made
+	// by it to be used as the internal link instead of the fake one. Services are
+	// then registered with the provider through dataPlane.AddSvc.
+	Underlay     UnderlayProvider
+	InternalLink Link
+}
+
+// VerifSent is one packet handed to a fake link.
+type VerifSent struct {
+	Blocking bool
+	Raw      []byte
+	Dst      *net.UDPAddr
+}
+
+// VerifResolve records one call of Resolve on the fake internal link.
+type VerifResolve struct {
+	Host addr.Host
+	Port uint16
+	Err  error
+}
+
+// VerifLink is a Link that has no socket: it records what is sent.
+type VerifLink struct {
+	ID       int
+	ScopeV   LinkScope
+	IfIDV    uint16
+	Up       bool
+	Sent     []VerifSent
+	Resolved []VerifResolve
+	svc      *Services[netip.AddrPort]
+	metrics  *InterfaceMetrics
+}
+
+var _ Link = (*VerifLink)(nil)
+
+func (l *VerifLink) IsUp() bool                 { return l.Up }
+func (l *VerifLink) IfID() uint16               { return l.IfIDV }
+func (l *VerifLink) Metrics() *InterfaceMetrics { return l.metrics }
+func (l *VerifLink) Scope() LinkScope           { return l.ScopeV }
+func (l *VerifLink) BFDSession() *bfd.Session   { return nil }
+
+// Resolve follows udpip.internalLink.Resolve except that the SCION port is
+// never rewritten (port dispatching is a property of the real underlay).
+func (l *VerifLink) Resolve(p *Packet, dst addr.Host, port uint16) error {
+	err := l.resolve(p, dst, port)
+	l.Resolved = append(l.Resolved, VerifResolve{Host: dst, Port: port, Err: err})
+	return err
+}
+
+func (l *VerifLink) resolve(p *Packet, dst addr.Host, port uint16) error {
+	if l.ScopeV != Internal {
+		return fmt.Errorf("unsupported address resolution on this link")
+	}
+	var dstAddr netip.Addr
+	switch dst.Type() {
+	case addr.HostTypeSVC:
+		a, ok := l.svc.Any(dst.SVC().Base())
+		if !ok {
+			return ErrNoSVCBackend
+		}
+		dstAddr = a.Addr()
+		port = a.Port()
+	case addr.HostTypeIP:
+		dstAddr = dst.IP()
+		if dstAddr.Is4In6() {
+			return ErrUnsupportedV4MappedV6Address
+		}
+		if dstAddr.IsUnspecified() {
+			return ErrUnsupportedUnspecifiedAddress
+		}
+	default:
+		panic(fmt.Sprintf("unexpected address type returned from DstAddr: %s", dst.Type()))
+	}
+	p.RemoteAddr = unsafe.Pointer(&net.UDPAddr{
+		IP:   dstAddr.AsSlice(),
+		Zone: dstAddr.Zone(),
+		Port: int(port),
+	})
+	return nil
+}
+
+func (l *VerifLink) record(p *Packet, blocking bool) {
+	s := VerifSent{Blocking: blocking, Raw: append([]byte(nil), p.RawPacket...)}
+	if l.ScopeV == Internal && p.RemoteAddr != nil {
+		a := *(*net.UDPAddr)(p.RemoteAddr)
+		s.Dst = &a
+	}
+	l.Sent = append(l.Sent, s)
+}
+
+func (l *VerifLink) Send(p *Packet) bool    { l.record(p, false); return true }
+func (l *VerifLink) SendBlocking(p *Packet) { l.record(p, true) }
+
+// VerifDataPlane is a configured dataPlane plus its fake links.
+type VerifDataPlane struct {
+	dp    *dataPlane
+	Links map[int]Link // by link id
+	ids   map[Link]int
+}
+
+// VerifNewUnderlay instantiates a registered underlay provider (the provider
+// package must have been imported so that it registered itself).
+func VerifNewUnderlay(name string, batch, rcvBuf, sndBuf int) UnderlayProvider {
+	f := underlayProviders[name]
+	if f == nil {
+		return nil
+	}
+	return f(batch, rcvBuf, sndBuf)
+}
+
+// VerifNewDataPlane builds the dataPlane described by c. It follows what
+// SetIA/SetKey/AddInternalInterface/AddExternalInterface/AddNextHop/
+// AddNeighborIA/AddSvc/SetPortRange leave behind, with fake links.
+func VerifNewDataPlane(c VerifConfig) (*VerifDataPlane, error) {
+	d := &dataPlane{
+		underlays:                      map[string]UnderlayProvider{},
+		Metrics:                        metrics,
+		ExperimentalSCMPAuthentication: c.SCMPAuth,
+		RunConfig:                      RunConfig{NumProcessors: 1, NumSlowPathProcessors: 1, BatchSize: 8},
+	}
+	if c.Underlay != nil {
+		d.underlays["udpip"] = c.Underlay
+	}
+	if err := d.SetIA(c.LocalIA); err != nil {
+		return nil, err
+	}
+	if err := d.SetKey(c.Key); err != nil {
+		return nil, err
+	}
+	v := &VerifDataPlane{dp: d, Links: map[int]Link{}, ids: map[Link]int{}}
+	add := func(id int, l Link) {
+		v.Links[id] = l
+		v.ids[l] = id
+	}
+	svc := NewServices[netip.AddrPort]()
+	if c.InternalLink != nil {
+		d.interfaces[0] = c.InternalLink
+	} else {
+		d.interfaces[0] = &VerifLink{ID: 0, ScopeV: Internal, Up: true, svc: svc}
+	}
+	add(0, d.interfaces[0])
+	d.numInterfaces++
+	d.localHost = addr.HostIP(c.LocalHost)
+	for _, i := range c.Ifaces {
+		if i.IfID == 0 {
+			return nil, fmt.Errorf("interface id 0 is the internal interface")
+		}
+		if d.interfaces[i.IfID] != nil {
+			return nil, errAlreadySet
+		}
+		if !i.Neighbor.IsZero() {
+			if err := d.AddNeighborIA(i.IfID, i.Neighbor); err != nil {
+				return nil, err
+			}
+		}
+		d.linkTypes[i.IfID] = i.LinkTo
+		if i.Sibling == 0 {
+			l := &VerifLink{ID: int(i.IfID), ScopeV: External, IfIDV: i.IfID, Up: i.Up}
+			d.interfaces[i.IfID] = l
+			add(l.ID, l)
+		} else {
+			id := VerifSiblingBase + i.Sibling
+			l, ok := v.Links[id]
+			if !ok {
+				l = &VerifLink{ID: id, ScopeV: Sibling, Up: !c.SiblingDown[i.Sibling]}
+				add(id, l)
+			}
+			d.interfaces[i.IfID] = l
+		}
+		d.numInterfaces++
+	}
+	for _, s := range c.Svcs {
+		if c.Underlay != nil {
+			if err := d.AddSvc(s.SVC, addr.HostIP(s.Addr.Addr()), s.Addr.Port()); err != nil {
+				return nil, err
+			}
+		} else {
+			svc.AddSvc(s.SVC, s.Addr)
+		}
+	}
+	d.SetPortRange(c.PortStart, c.PortEnd)
+	// What initPacketPool computes, without allocating the pool's buffers.
+	headroom := 0
+	for _, u := range d.underlays {
+		headroom = max(headroom, u.Headroom())
+	}
+	d.underlayHeadroom = headroom
+	d.packetPool = makePacketPool(0, max(headroom, minHeadroom))
+	d.setRunning()
+	return v, nil
+}
+
+// LinkID returns the hook's id of a link of this dataplane (-1 if unknown or nil).
+func (v *VerifDataPlane) LinkID(l Link) int {
+	if l == nil {
+		return -1
+	}
+	if id, ok := v.ids[l]; ok {
+		return id
+	}
+	return -1
+}
+
+// Fake returns the fake link with the given id (nil if it is not a fake one).
+func (v *VerifDataPlane) Fake(id int) *VerifLink {
+	l, _ := v.Links[id].(*VerifLink)
+	return l
+}
+
+// ClearRecords forgets what the fake links recorded.
+func (v *VerifDataPlane) ClearRecords() {
+	for _, l := range v.Links {
+		if f, ok := l.(*VerifLink); ok {
+			f.Sent, f.Resolved = nil, nil
+		}
+	}
+}
+
+// InterfaceUp exposes dataPlane.getInterfaceState (true = up).
+func (v *VerifDataPlane) InterfaceUp(ifID uint16) bool {
+	return v.dp.getInterfaceState(ifID) == control.InterfaceUp
+}
+
+// VerifRequest is the slowPathRequest left in the packet by the fast path.
+type VerifRequest struct {
+	Type    int // SCMP type (>= 0) or VerifSPRouterAlert*
+	Code    int
+	Pointer int
+}
+
+// VerifResult is what the fast path did with one packet.
+type VerifResult struct {
+	Disp        int
+	PanicMsg    string
+	Egress      uint16 // Packet.egress after processing
+	EgressLink  int    // link id of interfaces[egress]; -1 if there is none
+	Sent        bool   // handed to the egress link (as runProcessor does after pForward)
+	Out         []byte // RawPacket after processing
+	Req         VerifRequest
+	Dst         *net.UDPAddr // underlay destination (RemoteAddr) when forwarded over the internal link
+	TrafficType int
+	pkt         *Packet
+}
+
+// VerifNewPacket places raw in a packet buffer the way the packet pool and an
+// underlay would: at offset max(minHeadroom, underlay headroom), arriving on
+// the link with id ingress, with underlay source address src (may be nil).
+func (v *VerifDataPlane) VerifNewPacket(raw []byte, ingress int, src *net.UDPAddr) (*Packet, error) {
+	l := v.Links[ingress]
+	if l == nil {
+		return nil, fmt.Errorf("no such link: %d", ingress)
+	}
+	if len(raw) > bufSize-v.dp.packetPool.headroom {
+		return nil, fmt.Errorf("packet too large")
+	}
+	p := (&Packet{}).init(&[bufSize]byte{})
+	p.reset(v.dp.packetPool.headroom)
+	p.RawPacket = p.RawPacket[:len(raw)]
+	copy(p.RawPacket, raw)
+	p.Link = l
+	if src != nil {
+		a := *src
+		p.RemoteAddr = unsafe.Pointer(&a)
+	}
+	return p, nil
+}
+
+// VerifProcess runs scionPacketProcessor.processPkt on raw as received over
+// link ingress and then what runProcessor does with a pForward packet.
+func (v *VerifDataPlane) VerifProcess(raw []byte, ingress int, src *net.UDPAddr) (VerifResult, error) {
+	p, err := v.VerifNewPacket(raw, ingress, src)
+	if err != nil {
+		return VerifResult{}, err
+	}
+	return v.VerifProcessPacket(p), nil
+}
+
+// VerifProcessPacket is VerifProcess on an already built packet.
+func (v *VerifDataPlane) VerifProcessPacket(p *Packet) (res VerifResult) {
+	d := v.dp
+	res.pkt = p
+	res.EgressLink = -1
+	func() {
+		defer func() {
+			if e := recover(); e != nil {
+				res.Disp = VerifPanic
+				res.PanicMsg = fmt.Sprint(e)
+			}
+		}()
+		proc := newPacketProcessor(d)
+		res.Disp = int(proc.processPkt(p))
+	}()
+	res.Egress = p.egress
+	res.Out = append([]byte(nil), p.RawPacket...)
+	res.TrafficType = int(p.trafficType)
+	res.Req = VerifRequest{
+		Type:    int(p.slowPathRequest.spType),
+		Code:    int(p.slowPathRequest.code),
+		Pointer: int(p.slowPathRequest.pointer),
+	}
+	if res.Disp != VerifForward {
+		return res
+	}
+	fwLink := d.interfaces[p.egress]
+	if fwLink == nil {
+		return res
+	}
+	res.EgressLink = v.LinkID(fwLink)
+	if fwLink.Scope() == Internal && p.RemoteAddr != nil {
+		a := *(*net.UDPAddr)(p.RemoteAddr)
+		res.Dst = &a
+	}
+	res.Sent = fwLink.Send(p)
+	return res
+}
+
+// VerifSlowResult is what the slow path did with a packet the fast path
+// returned with disposition pSlowPath.
+type VerifSlowResult struct {
+	Dropped  bool // processPacket returned an error (packet goes back to the pool)
+	PanicMsg string
+	Out      []byte // RawPacket after processing (the reply)
+	Link     int    // link the reply is sent over (always the ingress link)
+	Sent     bool
+	Dst      *net.UDPAddr // RemoteAddr of the reply (underlay source of the request on unconnected links)
+}
+
+// VerifSlowPath runs slowPathPacketProcessor.processPacket on the packet left
+// by VerifProcess and then what runSlowPathProcessor does with the outcome.
+func (v *VerifDataPlane) VerifSlowPath(r VerifResult) (res VerifSlowResult) {
+	p := r.pkt
+	res.Link = -1
+	var err error
+	func() {
+		defer func() {
+			if e := recover(); e != nil {
+				res.PanicMsg = fmt.Sprint(e)
+			}
+		}()
+		err = newSlowPathProcessor(v.dp).processPacket(p)
+	}()
+	if res.PanicMsg != "" {
+		return res
+	}
+	if err != nil {
+		res.Dropped = true
+		return res
+	}
+	res.Out = append([]byte(nil), p.RawPacket...)
+	if p.RemoteAddr != nil && p.Link != nil && p.Link.Scope() == Internal {
+		a := *(*net.UDPAddr)(p.RemoteAddr)
+		res.Dst = &a
+	}
+	egressLink := p.Link
+	if egressLink == nil {
+		res.Dropped = true
+		return res
+	}
+	res.Link = v.LinkID(egressLink)
+	res.Sent = egressLink.Send(p)
+	return res
+}
+
+// VerifLinkType / VerifNeighbor expose the per-interface tables.
+func (v *VerifDataPlane) VerifLinkType(ifID uint16) topology.LinkType { return v.dp.linkTypes[ifID] }
+func (v *VerifDataPlane) VerifNeighbor(ifID uint16) addr.IA           { return v.dp.neighborIAs[ifID] }
+func (v *VerifDataPlane) VerifPortRange() (uint16, uint16) {
+	return v.dp.dispatchedPortStart, v.dp.dispatchedPortEnd
+}
